@@ -150,7 +150,9 @@ func (e *ExprShuffleVector) Type() types.Type {
 		if !ok {
 			panic(fmt.Errorf("invalid vector type; expected *types.VectorType, got %T", e.Mask.Type()))
 		}
-		e.Typ = types.NewVector(maskType.Len, xType.ElemType)
+		typ := types.NewVector(maskType.Len, xType.ElemType)
+		typ.Scalable = maskType.Scalable
+		e.Typ = typ
 	}
 	return e.Typ
 }
